@@ -17,7 +17,10 @@ expected is derived from that text by the small resolver below (tab splitting on
     (consecutive elements do not even share a segment name / no edge between two listed segments whatever the
     orientation; next to a nested reference: whichever of its two readings is taken on that side, independently
     of the reading taken on its other side), or when two different edges both join two listed segments in the
-    required direction;
+    required direction.  Edges are counted as LINES of the document, not by what they say: two E lines without
+    identifier (`*`) and with exactly the same ends, positions, alignment and tags are two edges of the graph (both
+    are kept, counted in gfa.edges and written back), so a step over their adjacency which leaves the edge out has
+    two fitting edges and the group must be refused (ambiguous-accepted; the message names the repeated E line);
   * reversing twice is the identity (the library compared with itself, so groups whose expected walk is doubtful
     are covered too): a second document is built in which every reference `q+` / `q-` to a path inside an O group
     is written `q~-` / `q~+`, q~ being a new group `O q~ q-` (named q + "r").  Under every reading of "nested paths inlined and
@@ -45,7 +48,13 @@ Generator: see RULE.  The shapes the walk construction distinguishes are drawn e
 four combinations of end items of a path (end segment stated / left to its edge), the item that follows or precedes
 a nested reference (the junction segment stated again, the edge leaving it, the next segment with the edge left
 out), and in 30% of the cases a chain of paths each nesting the previous one (bare `p-`/`p+` references to
-references, up to depth 5) so that every combination of signs over two and three levels occurs.
+references, up to depth 5) so that every combination of signs over two and three levels occurs.  12% of the cases
+(20% of those asked between arrivals) contain indistinguishable parallel edges: one edge loses its name and is
+repeated once or twice as an E line with the same text (in a fifth of these cases with one differing tag, as a
+control); one O group walks over that adjacency with both segments stated (forwards or backwards, continued at
+random on both sides), and every random walk / continuation next to a nested reference prefers these edges when it
+passes one of their segments; the repeated lines count as edges that repeat an adjacency, so that in the cases asked
+between arrivals they mostly arrive after the first question.
 
 NOT CHECKED (doubtful, the property text does not settle it):
   * the direction of the walk of a path that consists of a single reversed edge item (`O o e1-`, DESIGN 7 #25),
@@ -56,6 +65,8 @@ NOT CHECKED (doubtful, the property text does not settle it):
   * an edge that fits a step in both readings (e = A+ A-: e+ and e- are the same step);
   * groups whose nested path is itself doubtful; U groups that (transitively) mention a path that is not a
     definite walk; g.validate() (it does not look at contiguity at all);
+  * parallel unnamed edges which become identical only through a later edit (a tag deleted): only arrivals change
+    the graph here;
   * what a group answers while the document is incomplete (questions between arrivals); removal of lines,
     disconnecting and re-adding a group between two questions (only arrivals change the graph here);
   * order and multiplicity inside the returned induced lists; O/U lines without identifier (`*`), groups that
@@ -66,7 +77,9 @@ from harness.props import _graphgen as G
 
 ID = "C17"
 RULE = ("GFA2 graphs of 2-5 segments and 1-8 edges (dovetails, containments, internals, parallel edges, the same "
-        "adjacency written from the other strand, self-edges, a few unnamed edges) with 1-6 O/U groups: O items are "
+        "adjacency written from the other strand, self-edges, a few unnamed edges; in 12% of the cases an unnamed edge "
+        "repeated 1-2 times as an E line with identical text, which a path crosses with the edge left out: ambiguous) "
+        "with 1-6 O/U groups: O items are "
         "random walks with random elision of segments/edges (half of them with the kind of both end items, segment "
         "or edge, drawn uniformly), read forwards or backwards, 25% perturbed (flipped sign, foreign item, shuffled), "
         "nested through p+/p- with walk extension on either side whose first item is the restated junction segment, "
@@ -408,14 +421,16 @@ def out_steps(c, s):
     return out
 
 
-def random_walk(rng, c, start, nmax):
+def random_walk(rng, c, start, nmax, prefer=()):
+    """prefer: indices of edges which are taken with probability 0.6 whenever one of them leaves the current segment"""
     w = [("S",) + start]
     cur = start
     for _ in range(nmax):
         st = out_steps(c, cur)
         if not st:
             break
-        i, o, to = rng.choice(st)
+        pf = [x for x in st if x[0] in prefer]
+        i, o, to = rng.choice(pf) if pf and rng.random() < 0.6 else rng.choice(st)
         w += [("E", i, o), ("S",) + to]
         cur = to
     return w
@@ -473,6 +488,23 @@ def gen_case(rng, tier, i):
         specs.append((a, o1, b, o2, kind))
         eid = "e%d" % (j + 1) if rng.random() < 0.88 else "*"
         lines_e.append(edge_text(eid, a, o1, b, o2, kind, rng))
+    # indistinguishable parallel edges (12% of the cases, 20% of those asked between arrivals): one edge loses its name
+    # and is followed by 1-2 further E lines with exactly the same text (`*` identifier, same ends, positions, alignment
+    # and tags).  They are different lines of the graph: a step over this adjacency which leaves the edge out has more
+    # than one fitting edge.  In 20% of these cases the copy differs in one tag (still two edges).
+    twin = set()
+    if rng.random() < (0.2 if probing else 0.12):
+        j = rng.randrange(len(lines_e))
+        f = lines_e[j].split("\t")
+        f[1] = "*"
+        lines_e[j] = "\t".join(f)
+        twin.add(j)
+        differ = rng.random() < 0.2
+        for _ in range(2 if rng.random() < 0.15 else 1):
+            repeated.add(len(lines_e))
+            twin.add(len(lines_e))
+            lines_e.append(lines_e[j] + ("\txx:i:%d" % len(lines_e) if differ else ""))
+    twin_todo = bool(twin)
     c = read(lines_s + lines_e)
     glines = []          # (gid, 'O'|'U', [item strings])
     memo = {}
@@ -494,7 +526,7 @@ def gen_case(rng, tier, i):
                 # continuation on either side of the reference.  The segment at the junction belongs to the nested walk:
                 # it may be stated again ('S'), or the continuation starts with its edge ('E') or with the next segment
                 if rng.random() < 0.6:
-                    ext = random_walk(rng, c, w[-1][1:], rng.randint(0, 2))
+                    ext = random_walk(rng, c, w[-1][1:], rng.randint(0, 2), twin)
                     how = rng.choice("SEN?")
                     if how == "S":
                         items += elide(rng, c, ext, first="S")
@@ -505,7 +537,7 @@ def gen_case(rng, tier, i):
                     else:
                         items += elide(rng, c, ext[1:])
                 if rng.random() < (0.25 if tower else 0.4):
-                    back = flip(random_walk(rng, c, inv(w[0][1:]), rng.randint(0, 2)))
+                    back = flip(random_walk(rng, c, inv(w[0][1:]), rng.randint(0, 2), twin))
                     how = rng.choice("SEN?")
                     if how == "S":
                         items = elide(rng, c, back, last="S") + items
@@ -518,19 +550,32 @@ def gen_case(rng, tier, i):
                 if rng.random() < 0.1:
                     items.append(rng.choice(segs) + rng.choice("+-"))
             else:
-                start = (rng.choice(segs), rng.choice("+-"))
-                live = [(s_, o_) for s_ in segs for o_ in "+-" if out_steps(c, (s_, o_))]
-                if live and rng.random() < 0.6:
-                    start = rng.choice(live)
-                w = random_walk(rng, c, start, rng.choice([0, 1, 2, 2, 3, 3, 4]))
-                if rng.random() < 0.3:
-                    w = flip(w)
-                # the four shapes of the ends (segment stated / segment left to its edge) are equally frequent in half
-                # of the groups, left to the elision in the others
-                if rng.random() < 0.5:
-                    items = elide(rng, c, w, first=rng.choice("SE"), last=rng.choice("SE"))
+                if twin_todo and rng.random() < 0.7:
+                    # a walk which crosses the indistinguishable parallel edges, both segments of that step stated (the
+                    # edges have no name: the step can only be written with the edge left out), continued at random
+                    # on both sides and read forwards or backwards
+                    twin_todo = False
+                    fr, to = ends(c.edges[min(twin)], rng.choice("+-"))
+                    back = flip(random_walk(rng, c, inv(fr), rng.choice([0, 0, 1, 2]), twin))
+                    fwd = random_walk(rng, c, to, rng.choice([0, 0, 1, 2]), twin)
+                    w = back + [("E", min(twin), "+")] + fwd
+                    items = elide(rng, c, back[:-1]) + [fr[0] + fr[1], to[0] + to[1]] + elide(rng, c, fwd[1:])
+                    if rng.random() < 0.4:
+                        items = [x[:-1] + INV[x[-1]] for x in reversed(items)]
                 else:
-                    items = elide(rng, c, w)
+                    start = (rng.choice(segs), rng.choice("+-"))
+                    live = [(s_, o_) for s_ in segs for o_ in "+-" if out_steps(c, (s_, o_))]
+                    if live and rng.random() < 0.6:
+                        start = rng.choice(live)
+                    w = random_walk(rng, c, start, rng.choice([0, 1, 2, 2, 3, 3, 4]), twin)
+                    if rng.random() < 0.3:
+                        w = flip(w)
+                    # the four shapes of the ends (segment stated / segment left to its edge) are equally frequent in
+                    # half of the groups, left to the elision in the others
+                    if rng.random() < 0.5:
+                        items = elide(rng, c, w, first=rng.choice("SE"), last=rng.choice("SE"))
+                    else:
+                        items = elide(rng, c, w)
                 if not items:
                     items = [w[0][1] + w[0][2]]
                 r = rng.random()
@@ -656,6 +701,15 @@ def tags(case):
         t.add("U-definite" if v is not None else "U-skip")
         for r in c.U[uid]:
             t.add("U-item-" + c.kind.get(r, ("?",))[0])
+    texts = [e["text"] for e in c.edges if e["id"] is None]
+    if len(set(texts)) < len(texts):
+        t.add("identical-unnamed-parallel-edges")
+        dup = set(e["idx"] for e in c.edges if e["id"] is None and texts.count(e["text"]) > 1)
+        for gid, v in eo.items():
+            toks = items_tokens(c, gid)
+            if v[0] == "ambig" and toks and any(
+                    a[0] == b[0] == "S" and dup & set(i for i, _ in candidates(c, a[1:], b[1:])) for a, b in zip(toks, toks[1:])):
+                t.add("step-over-identical-unnamed-edges")
     if any(len(v) > 1 for v in c.group_lines.values()):
         t.add("multiline")
     if c.refused:
@@ -813,7 +867,17 @@ def oracle(case):
                 if r2[0] != "ok" or r2[1] != ([t for t in exp[1] if t[0] == "S"], [t for t in exp[1] if t[0] == "E"]):
                     F.append("captured-projections-wrong: %s: %r" % (desc, r2[1]))
         elif r[0] == "ok":
-            F.append("%s: %s gives %s" % ("noncontiguous-accepted" if exp[0] == "nc" else "ambiguous-accepted", desc, show(c, r[1])))
+            note = ""
+            if exp[0] == "ambig":
+                # the step for which several edges fit, when these are E lines without name and with the same text
+                used = set(t[1] for t in r[1] if t[0] == "E" and isinstance(t[1], int))
+                same = [e for e in c.edges if e["id"] is None and e["idx"] in used and
+                        len([x for x in c.edges if x["text"] == e["text"]]) > 1]
+                if same:
+                    note = "; the graph holds %d separate E lines %r, each of them fits that step" % (
+                        len([x for x in c.edges if x["text"] == same[0]["text"]]), same[0]["text"])
+            F.append("%s: %s gives %s%s" % ("noncontiguous-accepted" if exp[0] == "nc" else "ambiguous-accepted", desc,
+                                            show(c, r[1]), note))
     # ------------------------------------------------------------------ reversing twice is the identity
     # every reference `q+` / `q-` to a path is replaced by `q~-` / `q~+`, where q~ is a new group `O q~ q-`: whatever
     # the reading of nesting, the reversed reference to the reversed path is the path itself, so every group must keep
